@@ -36,6 +36,10 @@ type filterCase struct {
 	// when it searches the two strands one after the other); its hits are discarded
 	PreSeed uint64 `json:"pre_seed,omitempty"`
 	PreLen  int    `json:"pre_len,omitempty"`
+	// Comp: the complement flag passed to Filter. Only generated for ordinary (non-self) comparison,
+	// where the flag is documented to matter only together with selfAlign and must change nothing
+	// (PALS passes it for the second strand of every query).
+	Comp bool `json:"complement,omitempty"`
 }
 
 // expand is a pure function of the seed: a fixed linear congruential sequence mapped to ACGT.
@@ -51,10 +55,20 @@ func expand(seed uint64, n int) []byte {
 
 func (c filterCase) sequences() (t, q []byte) {
 	if c.Self {
+		// Forward fill, one letter at a time, so that a lag Q0-T0 smaller than N gives a tandem
+		// repeat of that period: window T0 and window Q0 differ exactly at the substituted offsets
+		// (a substituted letter is itself copied on, so it costs one mismatch, not two). For a lag
+		// of N or more this is a plain copy followed by the substitutions.
 		s := expand(c.SeedT, c.TLen)
-		copy(s[c.Q0:c.Q0+c.N], s[c.T0:c.T0+c.N])
+		sub := map[int]bool{}
 		for _, p := range c.Subs {
-			s[c.Q0+p] = other(s[c.Q0+p])
+			sub[p] = true
+		}
+		for i := 0; i < c.N; i++ {
+			s[c.Q0+i] = s[c.T0+i]
+			if sub[i] {
+				s[c.Q0+i] = other(s[c.Q0+i])
+			}
 		}
 		return s, s
 	}
@@ -115,7 +129,7 @@ func runFilter(c filterCase, t, q []byte) ([]filter.Hit, error) {
 			return nil, err
 		}
 	}
-	if err := f.Filter(qs, c.Self, false, m); err != nil {
+	if err := f.Filter(qs, c.Self, c.Comp && !c.Self, m); err != nil {
 		return nil, err
 	}
 	var hits []filter.Hit
@@ -154,6 +168,7 @@ func covered(c filterCase, hits []filter.Hit, t0, q0 int) bool {
 //     tube's index, or not at all), and
 //   - that event happens before a tube that shares the ring slot (index X+ring, or X-ring) can put
 //     k-mers into it.
+//
 // A miss is the known finding iff the match is safe via none of its tubes.
 func safeVia(c filterCase, X int) (bool, string) {
 	ring := (c.TLen+c.Off+c.E-1)/c.Off + 1
@@ -247,7 +262,7 @@ func check(c filterCase) *vlib.Failure {
 	if err != nil {
 		return vlib.Failf("error", "%v", err)
 	}
-	desc := fmt.Sprintf("k=%d e=%d n=%d offset=%d Tlen=%d Qlen=%d planted t0=%d q0=%d (%d substitutions) self=%v", c.K, c.E, c.N, c.Off, c.TLen, len(q), c.T0, c.Q0, len(c.Subs), c.Self)
+	desc := fmt.Sprintf("k=%d e=%d n=%d offset=%d Tlen=%d Qlen=%d planted t0=%d q0=%d (%d substitutions) self=%v complement=%v", c.K, c.E, c.N, c.Off, c.TLen, len(q), c.T0, c.Q0, len(c.Subs), c.Self, c.Comp)
 	if !covered(c, hits, c.T0, c.Q0) {
 		if known, why := explain(c); known {
 			return vlib.Failf("filter-boundary-miss", "%s: no hit covers the match; %s", desc, why)
@@ -295,6 +310,9 @@ func gen(t *rapid.T) filterCase {
 	thr := rapid.IntRange(1, 20).Draw(t, "threshold")
 	c.N = thr - 1 + c.K*(c.E+1)
 	c.Off = c.E + rapid.IntRange(0, 64).Draw(t, "offset-above-e")
+	if rapid.IntRange(0, 3).Draw(t, "narrow-tubes") == 0 {
+		c.Off = c.E + rapid.IntRange(0, 6).Draw(t, "small-offset-above-e")
+	}
 	if c.Off == 0 {
 		c.Off = 1
 	}
@@ -324,12 +342,20 @@ func gen(t *rapid.T) filterCase {
 		}
 		c.QLen = c.TLen
 		c.T0 = rapid.IntRange(0, c.TLen-2*c.N).Draw(t, "self-t0")
-		c.Q0 = rapid.IntRange(c.T0+c.N, c.TLen-c.N).Draw(t, "self-q0")
+		switch rapid.IntRange(0, 3).Draw(t, "self-lag") {
+		case 0: // tandem repeat with a period below the word size
+			c.Q0 = c.T0 + rapid.IntRange(1, c.K-1).Draw(t, "lag-below-k")
+		case 1: // overlapping copies
+			c.Q0 = c.T0 + rapid.IntRange(1, c.N).Draw(t, "lag-below-n")
+		default:
+			c.Q0 = rapid.IntRange(c.T0+c.N, c.TLen-c.N).Draw(t, "self-q0")
+		}
 	} else {
 		c.QLen = rapid.IntRange(minLen, max(minLen, maxLen)).Draw(t, "qlen")
 		c.T0 = place("t0", c.TLen)
 		c.Q0 = place("q0", c.QLen)
 	}
+	c.Comp = !c.Self && rapid.IntRange(0, 2).Draw(t, "complement-flag") == 0
 	if !c.Self && rapid.IntRange(0, 2).Draw(t, "reuse-filter") == 0 {
 		c.PreSeed = rapid.Uint64Range(1, 1<<62).Draw(t, "pre-seed")
 		c.PreLen = rapid.IntRange(minLen, max(minLen, maxLen)).Draw(t, "pre-len")
@@ -362,6 +388,17 @@ func classes(c filterCase) []string {
 	}
 	if c.Self {
 		l = append(l, "self")
+		if c.Q0-c.T0 < c.K {
+			l = append(l, "self-tandem-period-below-k")
+		} else if c.Q0-c.T0 < c.N {
+			l = append(l, "self-overlapping-copies")
+		}
+	}
+	if c.Comp {
+		l = append(l, "complement-flag-in-ordinary-comparison")
+		if c.Q0 < c.TLen-c.T0-c.N {
+			l = append(l, "complement-flag-and-match-below-antidiagonal")
+		}
 	}
 	if c.PreSeed != 0 {
 		l = append(l, "filter-reused-after-another-query")
@@ -380,5 +417,6 @@ func classes(c filterCase) []string {
 
 func TestFilter(t *testing.T) {
 	vlib.Run(t, vlib.Prop[filterCase]{Name: "planted-and-chance-matches", Checks: 3000, Thorough: 320000, Gen: gen, Check: check, Classes: classes, MaxKnownFrac: 0.1,
-		MinFrac: map[string]float64{"self": 0.1, "near-an-end": 0.2, "offset>k": 0.3, "offset<=k": 0.1, "filter-reused-after-another-query": 0.15}})
+		MinFrac: map[string]float64{"self": 0.1, "near-an-end": 0.2, "offset>k": 0.3, "offset<=k": 0.1, "filter-reused-after-another-query": 0.15,
+			"self-tandem-period-below-k": 0.03, "complement-flag-in-ordinary-comparison": 0.15, "complement-flag-and-match-below-antidiagonal": 0.04}})
 }
